@@ -163,7 +163,13 @@ def check_spans(text, real, spans):
     return None
 
 
-def stream(ctx: Ctx, texts, name="tokenizer-model", drv=None, kinds=None):
+def start_offsets(spans):
+    """offsets of the start-tag chunks in a `tk spans` reply (the Lean `startOffsets`)"""
+    body = spans.split("|")[0]
+    return [] if body == "-" else [int(x.split(":")[1]) for x in body.split(";") if x.split(":")[0] in ("ST", "SE")]
+
+
+def stream(ctx: Ctx, texts, name="tokenizer-model", drv=None, kinds=None, collect=None):
     """Compare recorder and model on `texts`; reports disagreements as violations of the calling check (model vs code:
     no_failing_input unless the span facts themselves fail on the real stream)."""
     drv = drv or Driver()
@@ -175,6 +181,8 @@ def stream(ctx: Ctx, texts, name="tokenizer-model", drv=None, kinds=None):
         reps = model_streams(drv, chunk)
         for idx, (t, (mt, ms)) in enumerate(zip(chunk, reps)):
             real = real_stream(t)
+            if collect is not None:
+                collect.append((t, real, mt, ms))
             ctx.count(f"{name}:texts")
             if kinds is not None:
                 ctx.count(f"{name}:{kinds[off + idx]}")
